@@ -31,7 +31,7 @@ WANT_LEVEL = {
     "AssertEqual": "Assert", "Or": "BoolOr", "And": "BoolAnd",
     "EqualEqual": "Comp", "NotEqual": "Comp", "Greater": "Comp", "GreaterEqual": "Comp", "Less": "Comp", "LessEqual": "Comp",
     "Plus": "Term", "Minus": "Term", "Star": "Factor", "Slash": "Factor",
-    "LeftBracket": "Index", "Dot": "Index", "LeftParen": "Index", "Arrow": "Arrow",
+    "LeftBracket": "Index", "Dot": "Index", "LeftParen": "Index", "Prime": "Index", "Arrow": "Arrow",
 }
 
 
@@ -139,9 +139,14 @@ def run(F, rep, tier):
                     if pat_variant(alt):
                         vset.add(last(pat_variant(alt)))
     binops = {k for k, v in WANT_LEVEL.items() if v not in ("Index", "Arrow")}
-    rep.ob("SETS", "valid_infix", vset == set(WANT_LEVEL) | {"Prime"},
+    rep.ob("SETS", "valid_infix", vset == set(WANT_LEVEL),
            "valid_infix admits the 13 binary operators, -> and the call/index/field openers (%d tokens; unexpected: %s, missing: %s)" % (
-               len(vset), sorted(vset - set(WANT_LEVEL) - {"Prime"}), sorted(set(WANT_LEVEL) - vset)), vi["sp"])
+               len(vset), sorted(vset - set(WANT_LEVEL)), sorted(set(WANT_LEVEL) - vset)), vi["sp"])
+    # a token that may continue an expression but has no level is only taken at Prec::No - looser than every operator
+    unlevelled = sorted(t for t in vset if level.get(t, default) == "No")
+    rep.ob("SETS", "valid_infix|all-have-a-level", not unlevelled,
+           "every token that can continue an expression has a precedence level (without one: %s - `1 + (f)'` would group as "
+           "`(1 + (f))'`)" % unlevelled, vi["sp"])
     rep.ob("SETS", "infix|binary-set", set(ptab) == binops and valid == binops,
            "infix() builds nodes for exactly the 13 binary operators that have a level", fn_infix["sp"])
     # ---- PARENS
